@@ -99,14 +99,27 @@ def gen3():
     yield i
 
 
+class ReprCounts(list):
+  """A value whose repr() is observable (it is counted as output) - nothing may print or format an argument behind the
+  user's back; abs / len / iteration work as for a list."""
+
+  def __repr__(self):
+    print('repr-called')
+    return 'ReprCounts(%d)' % len(self)
+
+  def __abs__(self):
+    return 3
+
+
 NUM = [('0', lambda: 0), ('1', lambda: 1), ('-3', lambda: -3), ('True', lambda: True), ('2.5', lambda: 2.5), ('-0.0', lambda: -0.0),
        ('nan', lambda: float('nan')), ('inf', lambda: float('inf')), ("'12'", lambda: '12'), ("' 7 '", lambda: ' 7 '),
        ("'x'", lambda: 'x'), ("b'5'", lambda: b'5'), ('None', lambda: None), ('WithAbs', WithAbs), ('[1]', lambda: [1]),
-       ('1e400', lambda: 10 ** 400), ("'0x1f'", lambda: '0x1f'), ("'1_0'", lambda: '1_0')]
+       ('1e400', lambda: 10 ** 400), ("'0x1f'", lambda: '0x1f'), ("'1_0'", lambda: '1_0'), ('ReprCounts', lambda: ReprCounts([1, 0]))]
 ITER = [('[]', lambda: []), ('[3,1,2]', lambda: [3, 1, 2]), ('(1,0)', lambda: (1, 0)), ('{2:1}', lambda: {2: 1}), ('{1,2}', lambda: {1, 2}),
         ('range(3)', lambda: range(3)), ("'ab'", lambda: 'ab'), ('iter([1,0])', lambda: iter([1, 0])), ('gen3()', gen3),
         ('Counting', lambda: Counting([1, 0, 2])), ('5', lambda: 5), ('Iterable()', Iterable), ('None', lambda: None),
-        ('ties', lambda: [Ordered(1, 'a'), Ordered(0, 'b'), Ordered(1, 'c'), Ordered(0, 'd')]), ('mixed', lambda: [1, 'a'])]
+        ('ties', lambda: [Ordered(1, 'a'), Ordered(0, 'b'), Ordered(1, 'c'), Ordered(0, 'd')]), ('mixed', lambda: [1, 'a']),
+        ('ReprCounts', lambda: ReprCounts([2, 0, 1]))]
 FUNCS = [('None', lambda: None), ('bool', lambda: bool), ('lam', lambda: (lambda *a: a[0])), ('add', lambda: (lambda a, b=10, c=100: a + b + c)),
          ('5', lambda: 5)]
 BASES = [('10', lambda: 10), ('2', lambda: 2), ('16', lambda: 16), ('0', lambda: 0), ('1', lambda: 1), ('37', lambda: 37), ("'2'", lambda: '2'),
